@@ -7,10 +7,10 @@ from common import run_model
 
 ID = "C12"
 LEVEL = "proof"
-GEN = ["RefLinksGen", "UtilGen"]
+GEN = ["RefLinksGen", "UtilGen", "RxGen", "UnicodeGen", "InlineGen", "BlockGen", "NormalizeGen"]
 COQ = ["Props/C12.vo"]
 EXPLANATION = (
-    "Theorems in coq/Props/C12.v on the model of the reference table (first-wins insertion keyed by unikey, lookup by "
+    "Theorems in coq/Props/C12.v. On the block parser model (coq/Model/Block.v, tied by skeletons, BlockGen and a token-tree + table correspondence run): a definition is ignored or appended under a key not yet in the table, and through the whole block pass - every handler, nested or interrupting block - a defined key keeps its definition (C12_block_model_first_definition_is_kept). On the model of the reference table (first-wins insertion keyed by unikey, lookup by "
     "unikey, and the two-pass structure: the table used by EVERY inline lookup is the table of ALL definitions in "
     "document order): whole-document scope, first definition wins regardless of what else is defined, lookups are "
     "invariant under letter-case variants and white-space-run variants of the label on both the use and the definition "
@@ -159,6 +159,15 @@ def expected(case, quirk=False):
 
 
 def correspondence(ctx):
+    import corr_block
+    a = _table_correspondence(ctx)
+    b = corr_block.run(ctx, ctx.n(1200, 20000))
+    return {"evaluations": a["evaluations"] + b["evaluations"], "disagreements": (a["disagreements"] + b["disagreements"])[:20],
+            "parts": {"reference-table model": a["evaluations"], "block parser model (tokens and table)": b["evaluations"]},
+            "samples": a.get("samples", [])}
+
+
+def _table_correspondence(ctx):
     m = ctx.mistune
     r = ctx.rng("corr")
     cases = [gen_case(r, i) for i in range(ctx.n(1500, 30000))]
